@@ -233,10 +233,10 @@ theorem lin_upgrade_goes_through_log (e : Env) (l : Level)
 
 set_option maxRecDepth 16384
 
-theorem query_source_shape : Gen.ReadPath.query = Expect.ReadPath.query := by decide
-theorem request_source_shape : Gen.ReadPath.request = Expect.ReadPath.request := by decide
+theorem query_source_shape : Gen.ReadPath.querySkel = Expect.ReadPath.querySkel := by decide
+theorem request_source_shape : Gen.ReadPath.requestSkel = Expect.ReadPath.requestSkel := by decide
 theorem store_isStaleRead_source_shape :
-    Gen.ReadPath.storeIsStaleRead = Expect.ReadPath.storeIsStaleRead := by decide
+    Gen.ReadPath.storeIsStaleReadSkel = Expect.ReadPath.storeIsStaleReadSkel := by decide
 theorem isStaleRead_source_shape : Gen.ReadPath.isStaleReadFn = Expect.ReadPath.isStaleReadFn := by decide
 theorem waitLin_step_order :
     Expect.ReadPath.callsOf Gen.ReadPath.waitLin = LinRead.stepNames := by decide
@@ -250,10 +250,9 @@ theorem isStaleRead_exits :
 /-- both entry points resolve AUTO (one `s.IsVoter` call each) before anything that
 depends on the level -/
 theorem auto_resolved_first :
-    (Expect.ReadPath.callsOf Gen.ReadPath.query).take 5 =
-      ["p.Check", "s.open.Is", "ctx.Err", "s.IsVoter", "s.raft.CurrentTerm"] ∧
-    (Expect.ReadPath.callsOf Gen.ReadPath.request).take 7 =
-      ["p.Check", "s.open.Is", "ctx.Err", "s.IsVoter", "s.RORWCount", "s.raft.State", "s.raft.CurrentTerm"] := by
+    (Expect.ReadPath.callsOf Gen.ReadPath.querySkel).take 2 = ["s.IsVoter", "s.raft.CurrentTerm"] ∧
+    (Expect.ReadPath.callsOf Gen.ReadPath.requestSkel).take 4 =
+      ["s.IsVoter", "s.RORWCount", "s.raft.State", "s.raft.CurrentTerm"] := by
   decide
 
 /-! ### non-vacuity -/
